@@ -273,6 +273,9 @@ class StatusFlow:
         self.helpers = helpers or {}     # own-class Status helpers: name -> set of (value, kind); kind = underlying update name | 'hlit'
         self.unmodelled_tests = []       # conditions on a Status local that the refinement does not understand
         self.svars = {d for d, v in self.lo.var.items() if is_status_type(fn, v.get("t")) and not v.get("ref")}
+        # by-value Status parameters (of a helper): tracked like locals, initial value the symbolic "$i" (bound at the call site)
+        self.pvars = {p["d"]: i for i, p in enumerate(fn.params) if is_status_type(fn, p["t"]) and "&" not in (fn.type(p["t"]) or "")}
+        self.svars |= set(self.pvars)
         # bool locals that (somewhere) receive a test of a Status local: tracked as facts ("b", d) -> {id of the test expression}
         self.bvars = set()
         for n in fn.nodes():
@@ -307,7 +310,16 @@ class StatusFlow:
             if nm in self.cv:
                 return {(v, ("upd", e["i"], nm)) for v in self.cv[nm]}
             if nm in self.helpers and (k == "Call" or e.get("obj") is None or e["obj"].get("k") == "This"):
-                return {(v, ("hlit", e["i"], nm) if kind == "hlit" else ("upd", e["i"], kind)) for v, kind in self.helpers[nm]}
+                out = set()
+                for v, kind in self.helpers[nm]:
+                    if kind == "param":
+                        i = int(v[1:])
+                        if i >= len(e.get("a", [])):
+                            raise Unknown("Status parameter %d of %s has no argument" % (i, nm))
+                        out |= self.ev(e["a"][i], state, sid, ctx)       # the helper hands its Status argument back
+                    else:
+                        out.add((v, ("hlit", e["i"], nm) if kind == "hlit" else ("upd", e["i"], kind)))
+                return out
             raise Unknown("Status produced by unmodelled call %s" % render(e)[:80])
         if k == "Cond":
             ci = strip(e["c"]).get("i")
@@ -384,7 +396,7 @@ class StatusFlow:
                 continue
             leaf["_refined"] = True
             want_eq = (leaf["op"] == "==") == p
-            new = frozenset(x for x in st[l["d"]] if (x[0] == v) == want_eq)
+            new = frozenset(x for x in st[l["d"]] if x[0].startswith("$") or (x[0] == v) == want_eq)
             if not new:
                 return None
             st[l["d"]] = new
@@ -468,7 +480,7 @@ class StatusFlow:
 
     def _run(self):
         cfg = self.cfg
-        self.instate = {cfg.entry: {}}
+        self.instate = {cfg.entry: {d: frozenset({("$%d" % i, ("param", i, ""))}) for d, i in self.pvars.items()}}
         work = [cfg.entry]
         while work:
             b = work.pop()
@@ -488,7 +500,7 @@ class StatusFlow:
                     continue
                 so = out
                 if sw is not None and sw_d in out:
-                    keep = frozenset(x for x in out[sw_d] if x[0] in sw.get(s, set()))
+                    keep = frozenset(x for x in out[sw_d] if x[0].startswith("$") or x[0] in sw.get(s, set()))
                     if not keep:
                         continue
                     so = dict(out)
@@ -554,7 +566,7 @@ KNOWN_PREDICATES = ("is_converged", "is_diverged", "isfinite", "isnan", "_plot_i
                     "dot", "norm2", "wait", "size", "at", "back", "front", "get_num_iter", "min", "max", "empty")
 
 
-def classify_literal(fn, lo, gd, value, sid, defect_obj, ctx=()):
+def classify_literal(fn, lo, gd, value, sid, defect_obj, ctx=(), wrappers=(), methods=None):
     """is the Status enumerator written in statement sid justified by the branch facts that dominate it (and by the
     conditions of the ?: operators that select it inside the statement: ctx = ((condition node id, polarity), ...))?
     -> (ok, why) ; ok None = not decidable (a dominating test goes through a predicate this rule does not model)"""
@@ -569,14 +581,18 @@ def classify_literal(fn, lo, gd, value, sid, defect_obj, ctx=()):
         c, pol = todo.pop(0)
         n_exp += 1
         r = lo.resolve(c)
+        h = (methods or {}).get(cname(r)) if (r.get("k") == "MCall" and (r.get("obj") is None or r["obj"].get("k") == "This") and cname(r) not in wrappers) else None
+        hret = [x for x in h.nodes() if x.get("k") == "Return"] if h is not None and h is not fn else []
         if r is not strip(c) and (r.get("k") == "Un" and r.get("op") == "!" or r.get("k") == "Bin" and r.get("op") in ("&&", "||")):
             todo = leaf_guards(r, pol) + todo       # a bool local holding a compound test
+        elif len(hret) == 1 and hret[0].get("e") is not None and not any(x.get("k") in ("If", "For", "While", "Do", "Switch") for x in h.nodes()):
+            todo = leaf_guards(hret[0]["e"], pol) + todo       # a one-line own predicate: `bool _breakdown(x) const { return !isfinite(x); }`
         else:
             guards.append((r, pol))
     texts, opaque = [], []
     for c, pol in guards:
         texts.append(("" if pol else "!") + render(c)[:60])
-        if (is_call(c) and not cname(c).startswith("_apply_precond") and cname(c) not in KNOWN_PREDICATES) or c.get("k") in ("Ref", "Member", "Lambda"):
+        if (is_call(c) and not cname(c).startswith("_apply_precond") and cname(c) not in wrappers and cname(c) not in KNOWN_PREDICATES) or c.get("k") in ("Ref", "Member", "Lambda"):
             ty = fn.ntype(c) or ""
             if "bool" in ty or is_call(c):
                 opaque.append(render(c)[:50])
@@ -587,7 +603,7 @@ def classify_literal(fn, lo, gd, value, sid, defect_obj, ctx=()):
         return False, msg
     if value == "aborted":
         for c, pol in guards:
-            if is_call(c) and cname(c).startswith("_apply_precond") and not pol:
+            if is_call(c) and (cname(c).startswith("_apply_precond") or cname(c) in wrappers) and not pol:
                 return True, "after failed %s" % cname(c)
             if is_call(c) and cname(c) == "isfinite" and not pol:
                 return True, "breakdown: !isfinite(%s)" % term(lo, c["a"][0])
@@ -693,10 +709,24 @@ def status_helpers(members, cls, cv, skip=("apply", "correct", "_apply_intern"))
             vals = set()
             for rs in sf.returns.values():
                 for v, org in rs:
-                    vals.add((v, org[2] if org[0] == "upd" else "hlit"))
+                    vals.add((v, org[2] if org[0] == "upd" else ("param" if org[0] == "param" else "hlit")))
             summ[name] = vals
             flows[name] = sf
     return cands, summ, flows
+
+
+def precond_wrappers(members, cls):
+    """own-class bool functions (not themselves named _apply_precond*) that call _apply_precond*: candidates for
+    'the preconditioner behind a private helper'; their inner calls are checked in bool mode (failure => false)"""
+    out = {}
+    for name, fl in members.items():
+        if name.startswith("_apply_precond"):
+            continue
+        for f in fl:
+            if f.cls == cls and f.cfg is not None and not f.d.get("ctor") and f.d.get("ret") is not None \
+                    and (f.type(f.d["ret"]) or "").replace("const ", "").strip() == "bool" and any(cname(c).startswith("_apply_precond") for c in f.calls()):
+                out[name] = f
+    return out
 
 
 def own_unmodelled_calls(fn, known):
@@ -751,6 +781,7 @@ def rule_status_protocol(ck, solvers, cv):
         for fn in fns:
             tag = short_inst(fn)
             cands, summ, hflows = status_helpers(solvers.get(sc, {}), fn.cls, cv)
+            wrappers = precond_wrappers(solvers.get(sc, {}), fn.cls)
             sf = StatusFlow(fn, cv, summ)
             lo = sf.lo
             units = [("_apply_intern", fn, sf)] + [(n, cands[n], hflows[n]) for n in sorted(cands) if any(cname(c) == n for u in [fn] + list(cands.values()) for c in u.calls())]
@@ -760,7 +791,7 @@ def rule_status_protocol(ck, solvers, cv):
             if not sf.returns:
                 ck.incomplete("E7.status-origin", "%s::_apply_intern [%s]: no return found" % (sc, tag))
             opaque_tests = sf.unmodelled_tests
-            carriers = own_unmodelled_calls(fn, PROTOCOL_KNOWN | set(cands))
+            carriers = own_unmodelled_calls(fn, PROTOCOL_KNOWN | set(cands) | set(wrappers))
 
             def definite(cat, rule, detail, line, why_not=None):
                 """a value-set verdict is definite only if every test of the Status locals was understood"""
@@ -795,7 +826,9 @@ def rule_status_protocol(ck, solvers, cv):
                             continue
                         seen.add((v, org[1], org[2]))
                         nlit += 1
-                        ok, why = classify_literal(ufn, ulo, ugd, v, org[1], defect_obj, org[2])
+                        ok, why = classify_literal(ufn, ulo, ugd, v, org[1], defect_obj, org[2], wrappers,
+                                                   {mn: [f for f in mfl if f.cls == fn.cls and f.cfg is not None][0] for mn, mfl in solvers.get(sc, {}).items()
+                                                    if [f for f in mfl if f.cls == fn.cls and f.cfg is not None] and mn not in KNOWN_PREDICATES})
                         sl = (ufn.by_id(org[1]) or {}).get("l")
                         if ok is None:
                             ck.incomplete("E7.status-origin", "%s::%s [%s] line %s: %s" % (sc, un, tag, sl, why))
@@ -826,11 +859,12 @@ def rule_status_protocol(ck, solvers, cv):
             if nk == 0:
                 add("tested", True, "[%s] status variable assigned once" % tag, fn.line)
             # --- every _apply_precond result is tested and its failure returns aborted
-            for un, ufn, usf in units:
+            used_wrappers = sorted(w for w in wrappers if any(cname(c) == w for u in [fn] + [cands[n] for n in cands] + list(wrappers.values()) for c in u.calls()))
+            for un, ufn, usf in units + [(w, wrappers[w], None) for w in used_wrappers]:
                 for c in ufn.calls():
-                    if not cname(c).startswith("_apply_precond") or not re.search(r"\bbool\b", ufn.ntype(c) or "bool"):
+                    if not (cname(c).startswith("_apply_precond") or (cname(c) in wrappers and wrappers[cname(c)] is not ufn)) or not re.search(r"\bbool\b", ufn.ntype(c) or "bool"):
                         continue
-                    ok, why = precond_tested(ufn, usf, c)
+                    ok, why = precond_tested(ufn, usf, c, bool_mode=(usf is None))
                     key = "%s::%s/%s#%d" % (sc, un, cname(c), ordinal(ufn, c))
                     if ok is None:
                         ck.incomplete("E7.precond-tested", "%s [%s] line %s: %s" % (key, tag, c.get("l"), why))
@@ -858,6 +892,16 @@ def rule_status_protocol(ck, solvers, cv):
                 for c in ufn.calls():
                     if cname(c) in ("_update_defect", "is_converged", "is_diverged") and len(c.get("a", [])) == 1:
                         ok, why = norm_of_defect(ufn, usf.lo, c["a"][0], defect_obj if un == "_apply_intern" or not (defect_obj or "").startswith("$") else None)
+                        ra = usf.lo.resolve(c["a"][0])
+                        if ok is None and un != "_apply_intern" and ra.get("k") == "Ref" and ra.get("dk") == "param":
+                            # the tested value is a parameter of this helper: decide it at the call sites (one level up)
+                            pi = [q["d"] for q in ufn.params].index(ra["d"]) if ra["d"] in [q["d"] for q in ufn.params] else None
+                            sites = [(cun, cfn, csf, c2) for cun, cfn, csf in units for c2 in cfn.calls() if cname(c2) == un and cfn is not ufn and pi is not None and pi < len(c2.get("a", []))]
+                            nres = [norm_of_defect(cfn, csf.lo, c2["a"][pi], defect_obj if cun == "_apply_intern" or not (defect_obj or "").startswith("$") else None) for cun, cfn, csf, c2 in sites]
+                            if nres and all(r[0] is True for r in nres):
+                                ok, why = True, "parameter '%s' of %s(): at the call site(s) %s" % (ra.get("n"), un, nres[0][1])
+                            elif any(r[0] is False for r in nres):
+                                ok, why = False, "parameter '%s' of %s(): %s" % (ra.get("n"), un, [r[1] for r in nres if r[0] is False][0])
                         key = "%s::%s/%s#%d" % (sc, un, cname(c), ordinal(ufn, c))
                         if ok is None:
                             ck.incomplete("E7.defect-norm-object", "%s [%s] line %s: %s" % (key, tag, c.get("l"), why))
@@ -912,10 +956,12 @@ def describe_state(sf, bid):
     return "; ".join(parts)
 
 
-def precond_tested(fn, sf, call):
-    """-> (True|False|None, why).  None: the result flows somewhere this rule does not follow"""
+def precond_tested(fn, sf, call, bool_mode=False):
+    """-> (True|False|None, why).  None: the result flows somewhere this rule does not follow.
+    bool_mode: fn is a bool wrapper of the preconditioner call: its failure must make the wrapper return false
+    (the result returned as it is, or the failure edge leading only to `return false`)"""
     cfg = fn.cfg
-    lo = sf.lo
+    lo = sf.lo if sf is not None else Locals(fn)
     # the call itself, or a bool local initialised/assigned exactly from it, must be a leaf of a branch condition
     holders = {call["i"]}
     holder_vars = {}          # local -> True if it holds the result, False if it holds its negation
@@ -935,6 +981,16 @@ def precond_tested(fn, sf, call):
     def is_result(x):
         x = strip(x)
         return x.get("i") in holders or (x.get("k") == "Ref" and x.get("d") in holder_vars)
+    if bool_mode:
+        for n in fn.nodes():
+            if n.get("k") == "Return" and n.get("e") is not None:
+                lg = leaf_guards(n["e"], True)
+                if len(lg) == 1 and is_result(lg[0][0]):
+                    lf = strip(lg[0][0])
+                    pos = lg[0][1] if lf.get("i") in holders else (lg[0][1] == holder_vars[lf["d"]])
+                    if pos:
+                        return True, "the result of %s is returned as the result of %s()" % (cname(call), fn.name)
+                    return False, "%s() returns the negation of the %s result" % (fn.name, cname(call))
     for bid, b in cfg.blocks.items():
         if b.get("cond") is None or len(b.get("succ", [])) != 2:
             continue
@@ -962,6 +1018,13 @@ def precond_tested(fn, sf, call):
             if x == cfg.exit:
                 continue
             rets = [s for s in cfg.blocks[x]["el"] if (fn.by_id(s) or {}).get("k") == "Return"]
+            if rets and bool_mode:
+                rv = strip(fn.by_id(rets[0]).get("e") or {})
+                if rv.get("k") == "Bool" and rv.get("v") is False:
+                    continue
+                if rv.get("k") == "Bool":
+                    return False, "after a failed %s the wrapper %s() returns true at line %s" % (cname(call), fn.name, fn.by_id(rets[0]).get("l"))
+                return None, "the value returned at line %s after a failed %s is not a literal" % (fn.by_id(rets[0]).get("l"), cname(call))
             if rets:
                 vals = sf.returns.get(rets[0])
                 if vals is None:
@@ -971,7 +1034,7 @@ def precond_tested(fn, sf, call):
                         cname(call), sorted({v[0] for v in vals}), fn.by_id(rets[0]).get("l"))
                 continue
             st.extend(s for s in cfg.succ.get(x, []))
-        return True, "failure of %s returns Status::aborted" % cname(call)
+        return True, ("failure of %s returns false" if bool_mode else "failure of %s returns Status::aborted") % cname(call)
     # not a branch condition: discarded, or flowing into something else?
     par = parent_map(fn)
     pn = par.get(call["i"])
@@ -1085,6 +1148,19 @@ def formula(lo, e):
             return ("and", formula(lo, e["lhs"]), formula(lo, e["rhs"]))
         if op == "||":
             return ("or", formula(lo, e["lhs"]), formula(lo, e["rhs"]))
+        if op in ("<", "<=", ">", ">=") and not e.get("_mm"):
+            # x <= max(a,b) == (x<=a || x<=b), x <= min(a,b) == (x<=a && x<=b), max(a,b) <= x == (a<=x && b<=x), ... (total order)
+            for side, other in (("rhs", "lhs"), ("lhs", "rhs")):
+                m = lo.resolve(e[side])
+                if m.get("k") == "Call" and cname(m) in ("max", "min") and len(m.get("a", [])) == 2 and (m.get("callee", "").startswith("FEAT::Math::") or m.get("callee", "").startswith("std::")):
+                    parts = []
+                    for a in m["a"]:
+                        sub = {"k": "Bin", "op": op, "lhs": e["lhs"], "rhs": e["rhs"]}
+                        sub[side] = a
+                        parts.append(formula(lo, sub))
+                    big_is_weak = (side == "rhs") == (op in ("<", "<="))      # x <= max / max-free side: a larger bound is easier to satisfy
+                    conn = "or" if (cname(m) == "max") == big_is_weak else "and"
+                    return (conn, parts[0], parts[1])
         if op in ("<", "<=", ">", ">=", "==", "!="):
             a, b = term(lo, e["lhs"]), term(lo, e["rhs"])
             if op == "<=":
@@ -1191,8 +1267,11 @@ class Paths:
 
     MAX_DEPTH = 3
 
-    def __init__(self, fn, bool_result=False, methods=None, bind=None, depth=0, stack=()):
+    def __init__(self, fn, bool_result=False, methods=None, bind=None, depth=0, stack=(), start=None, stops=None, eff0=()):
+        """start / stops: enumerate only the region from the beginning of block `start` to the first block in
+        `stops` ({block: outcome label}); the outcome of a path is then the label of the stop block it reaches"""
         self.fn = fn
+        self.stops = stops or {}
         self.lo = Locals(fn)
         self.paths = []
         self.problems = []
@@ -1203,14 +1282,15 @@ class Paths:
         self.inlined = {}               # name -> Function of the helpers that were followed
         self._sub = {}
         cfg = fn.cfg
-        self._walk(cfg.entry, [], [], set(), dict(bind or {}), 0, [])
+        # eff0: the effects of the caller's path so far (an inlined helper continues the caller's write counts)
+        self._walk(cfg.entry if start is None else start, [], list(eff0), set(), dict(bind or {}), 0, [])
 
-    def _select(self, lo, e, cons):
+    def _select(self, lo, e, cons, eff=()):
         """a ?: whose condition was already decided on this path denotes the chosen branch"""
         e = lo.resolve(e)
         n = 0
         while e.get("k") == "Cond" and n < 8:
-            f = formula(lo, e["c"])
+            f = self._curf(formula(lo, e["c"]), eff)
             hit = [pol for g, pol in cons if g == f]
             if not hit:
                 break
@@ -1218,8 +1298,8 @@ class Paths:
             n += 1
         return e
 
-    def _value(self, lo, e, ty, cons=()):
-        e = self._select(lo, e, cons)
+    def _value(self, lo, e, ty, cons=(), eff=()):
+        e = self._select(lo, e, cons, eff)
         t = term(lo, e)
         f = None
         if ty.strip() in ("bool", "const bool"):
@@ -1228,6 +1308,65 @@ class Paths:
             except Exception:
                 f = None
         return {"k": "_Term", "text": t, "f": f}
+
+    # --- snapshots: a single-assignment local initialised from fields that the function also writes denotes the value the
+    # fields had at its declaration.  Such field names are marked with their write count on the path (`_def_cur@0`); a mark is
+    # dropped whenever the text is used while the count is still the same (the snapshot equals the current value).
+    def written_fields(self):
+        w = getattr(self, "_wf", None)
+        if w is None:
+            w = set()
+            for f in [self.fn] + list(self.methods.values()):
+                for n in f.nodes():
+                    t = None
+                    if n.get("k") == "Assign":
+                        t = strip(n["lhs"])
+                    elif n.get("k") == "Un" and n.get("op") in ("++", "--"):
+                        t = strip(n["e"])
+                    if isinstance(t, dict) and t.get("k") == "Member" and t.get("field") and (t.get("b") is None or t["b"].get("k") == "This"):
+                        w.add(t["n"])
+            self._wf = w
+        return w
+
+    @staticmethod
+    def _nwrites(eff, field):
+        return sum(1 for e in eff if re.match(r"^%s\W" % re.escape(field), e[0]))
+
+    def _mark(self, text, eff):
+        for f in self.written_fields():
+            if f in text:
+                text = re.sub(r"(?<![\w$:.@])%s(?![\w@])" % re.escape(f), "%s@%d" % (f, self._nwrites(eff, f)), text)
+        return text
+
+    def _cur(self, text, eff):
+        if not isinstance(text, str) or "@" not in text:
+            return text
+
+        def sub(m):
+            return m.group(1) if self._nwrites(eff, m.group(1)) == int(m.group(2)) else m.group(0)
+        return re.sub(r"(?<![\w$:.])(_\w+)@(\d+)", sub, text)
+
+    def _curf(self, f, eff):
+        if f is None:
+            return None
+        if f[0] == "atom":
+            return ("atom", self._cur(f[1], eff))
+        if f[0] == "not":
+            return ("not", self._curf(f[1], eff))
+        if f[0] in ("and", "or"):
+            return (f[0], self._curf(f[1], eff), self._curf(f[2], eff))
+        return f
+
+    def _markf(self, f, eff):
+        if f is None:
+            return None
+        if f[0] == "atom":
+            return ("atom", self._mark(f[1], eff))
+        if f[0] == "not":
+            return ("not", self._markf(f[1], eff))
+        if f[0] in ("and", "or"):
+            return (f[0], self._markf(f[1], eff), self._markf(f[2], eff))
+        return f
 
     def _helper_of(self, n):
         """the own-class helper a call element denotes, if it is to be followed"""
@@ -1240,15 +1379,20 @@ class Paths:
             return None
         return h
 
-    def _inline(self, n, h, lo, cons):
+    def _inline(self, n, h, lo, cons, eff=()):
         """paths of helper h for the call n with the parameters bound -> list of sub paths or None"""
         if self.depth >= self.MAX_DEPTH or h.name in self.stack:
             return None
         bind = {}
         for prm, a in zip(h.params, n.get("a", [])):
-            bind[prm["d"]] = self._value(lo, a, h.type(prm["t"]) or "", cons)
+            ty = h.type(prm["t"]) or ""
+            val = self._value(lo, a, ty, cons, eff)
+            if not ("&" in ty and "const" not in ty) and any(f in val["text"] for f in self.written_fields()):
+                # a by-value (or const&) parameter is a snapshot of the argument at the call
+                val = {"k": "_Term", "text": self._mark(self._cur(val["text"], eff), eff), "f": self._markf(self._curf(val["f"], eff), eff)}
+            bind[prm["d"]] = val
         ret = (h.type(h.d["ret"]) or "").replace("const ", "").strip() if h.d.get("ret") is not None else "void"
-        sub = Paths(h, bool_result=(ret == "bool"), methods=self.methods, bind=bind, depth=self.depth + 1, stack=self.stack)
+        sub = Paths(h, bool_result=(ret == "bool"), methods=self.methods, bind=bind, depth=self.depth + 1, stack=self.stack, eff0=eff)
         if sub.problems or not sub.paths:
             return None
         self.inlined[h.name] = h
@@ -1261,6 +1405,9 @@ class Paths:
     def _walk(self, b, cons, eff, onpath, env, start, seq):
         cfg = self.fn.cfg
         fn = self.fn
+        if b in self.stops and start == 0 and onpath:
+            self.paths.append({"cons": cons, "eff": list(eff), "out": self.stops[b], "line": None, "seq": list(seq)})
+            return
         if b in onpath and start == 0:
             self.problems.append("function is not loop-free (block %d revisited)" % b)
             return
@@ -1280,7 +1427,7 @@ class Paths:
             k = n.get("k")
             if k == "MCall" and (n.get("obj") is None or n["obj"].get("k") == "This"):
                 h = self._helper_of(n)
-                sub = self._inline(n, h, lo, cons) if h is not None else None
+                sub = self._inline(n, h, lo, cons, eff) if h is not None else None
                 if sub is not None:
                     for sp in sub.paths:
                         out = sp["out"]
@@ -1290,17 +1437,22 @@ class Paths:
                             res = {"k": "_Term", "text": out if out is not None else "void", "f": None}
                         env2 = dict(env)
                         env2[("call", n["i"])] = res
-                        self._walk(b, cons + list(sp["cons"]), eff + list(sp["eff"]), onpath, env2, pos + 1, seq + list(sp["seq"]))
+                        self._walk(b, cons + list(sp["cons"]), list(sp["eff"]), onpath, env2, pos + 1, seq + list(sp["seq"]))
                     return
                 if not n.get("cconst") and cname(n) not in BASE_KNOWN and cname(n) not in self.opaque_calls:
                     self.opaque_calls.append(cname(n))
-                seq.append(("call", cname(n), term(lo, n)))
+                seq.append(("call", cname(n), self._cur(term(lo, n), eff)))
             elif k == "OpCall" and n.get("op") == "()" and ("lambda/functor call at line %s" % n.get("l")) not in self.opaque_calls:
                 self.opaque_calls.append("lambda/functor call at line %s" % n.get("l"))
             if k == "Decl":
                 for v in n.get("vars", []):
                     if not v.get("ref") and v.get("init") is not None and self.lo.writes.get(v["d"], 0) > 0:
-                        env[v["d"]] = self._value(lo, v["init"], fn.type(v.get("t")) or "", cons)
+                        env[v["d"]] = self._value(lo, v["init"], fn.type(v.get("t")) or "", cons, eff)
+                    elif not v.get("ref") and v.get("init") is not None and not is_status_type(fn, v.get("t")):
+                        val = self._value(lo, v["init"], fn.type(v.get("t")) or "", cons, eff)
+                        if any(f in val["text"] for f in self.written_fields()):
+                            cur_t = self._cur(val["text"], eff)
+                            env[v["d"]] = {"k": "_Term", "text": self._mark(cur_t, eff), "f": self._markf(self._curf(val["f"], eff), eff)}
             elif k == "Assign":
                 lhs = strip(n["lhs"])
                 byref = None
@@ -1310,14 +1462,14 @@ class Paths:
                 if byref is not None:
                     if re.match(r"^_\w+$", byref):
                         rhs = n["rhs"]
-                        eff.append(("%s%s" % (byref, n["op"]), term(lo, rhs)))
-                        seq.append(("eff", "%s%s" % (byref, n["op"]), term(lo, rhs)))
+                        eff.append(("%s%s" % (byref, n["op"]), self._cur(term(lo, rhs), eff)))
+                        seq.append(("eff",) + eff[-1])
                     else:
                         self.problems.append("write through reference parameter '%s' bound to %s" % (lhs.get("n"), byref[:30]))
                 elif lhs.get("k") == "Ref" and lhs.get("dk") in ("local", "param") and not (self.lo.var.get(lhs["d"]) or {}).get("ref"):
                     ty = fn.ntype(lhs) or ""
                     if n.get("op") == "=":
-                        env[lhs["d"]] = self._value(lo, n["rhs"], ty, cons)
+                        env[lhs["d"]] = self._value(lo, n["rhs"], ty, cons, eff)
                     else:
                         old = term(lo, lhs)
                         env[lhs["d"]] = {"k": "_Term", "text": "%s(%s,%s)" % (n["op"], old, term(lo, n["rhs"])), "f": None}
@@ -1326,7 +1478,7 @@ class Paths:
                     rhs = n["rhs"]
                     while strip(rhs).get("k") == "Assign" and strip(rhs).get("op") == "=":
                         rhs = strip(rhs)["rhs"]
-                    eff.append(("%s%s" % (term(lo, lhs), n["op"]), term(lo, rhs)))
+                    eff.append(("%s%s" % (term(lo, lhs), n["op"]), self._cur(term(lo, rhs), eff)))
                     seq.append(("eff",) + eff[-1])
             elif k == "Un" and n.get("op") in ("++", "--"):
                 t = strip(n["e"])
@@ -1341,11 +1493,11 @@ class Paths:
             elif k == "Return":
                 e = n.get("e")
                 if e is not None:
-                    e = self._select(lo, e, cons)
+                    e = self._select(lo, e, cons, eff)
                 if self.bool_result:
-                    out = formula(lo, e)
+                    out = self._curf(formula(lo, e), eff)
                 else:
-                    out = term(lo, e) if e is not None else None
+                    out = self._cur(term(lo, e), eff) if e is not None else None
                 self.paths.append({"cons": cons, "eff": eff, "out": out, "line": n.get("l"), "seq": seq})
                 return
         if b == cfg.exit:
@@ -1376,7 +1528,7 @@ class Paths:
                 self._walk(default, cons + [(a, False) for s2, a in cases], eff, onpath | {b}, env, 0, seq)
         elif len(ss) == 2 and blk.get("cond") is not None:
             c = self.fn.by_id(blk["cond"])
-            f = formula(lo, c)
+            f = self._curf(formula(lo, c), eff)
             self._walk(ss[0], cons + [(f, True)], eff, onpath | {b}, env, 0, seq)
             self._walk(ss[1], cons + [(f, False)], eff, onpath | {b}, env, 0, seq)
         else:
@@ -1893,7 +2045,9 @@ def rule_defect_update(ck, facts):
             if len(incs) != 1 or not (incs[0][0] == "_num_iter++" or incs[0] == ("_num_iter+=", "1") or incs[0] == ("_num_iter=", "add(1,_num_iter)")):
                 bad_inc.append((p["line"], incs))
             names = [e[0] for e in effs]
-            if ("_def_prev=", "_def_cur") not in effs:
+            if ("_def_prev=", "_def_cur@0") in effs and names.count("_def_prev=") == 1:
+                pass        # _def_prev receives a snapshot of _def_cur taken before its first write on this path
+            elif ("_def_prev=", "_def_cur") not in effs:
                 bad_hist.append((p["line"], "no `_def_prev = _def_cur`"))
             else:
                 ip = effs.index(("_def_prev=", "_def_cur"))
@@ -2101,6 +2255,63 @@ def rule_apply_correct(ck, solvers):
                 lo = Locals(fn)
                 p0, p1 = fn.params[0], fn.params[1]
                 calls = [c for c in fn.calls() if cname(c) == "_apply_intern"]
+                via = None
+                if not calls and meth == "apply":
+                    # apply() as `vec_cor.format(); return correct(vec_cor, vec_def);`: with the null start vector the defect that
+                    # correct() computes is the right-hand side itself, so apply() inherits the obligations decided for correct()
+                    cc = [c for c in fn.calls() if cname(c) == "correct" and c.get("k") == "MCall" and (c.get("obj") is None or c["obj"].get("k") == "This")]
+                    if len(cc) == 1 and len(cc[0].get("a", [])) == 2 and fn.cfg.must_pass(lambda n, _i=cc[0]["i"]: n.get("i") == _i)[0] \
+                            and objkey(lo, cc[0]["a"][0]) == "$0" and objkey(lo, cc[0]["a"][1]) == "$1":
+                        uses = object_uses(fn, lo, "$0", before=cc[0])
+                        fm = [c for k, c in uses if k == "recv-mut" and cname(c) == "format" and all(is_zero(lo, a) for a in c.get("a", [])) and fn.cfg.stmt_dominates(c["i"], cc[0]["i"])]
+                        early = [c for k, c in uses if fm and c["i"] != fm[0]["i"] and not fn.cfg.stmt_dominates(fm[0]["i"], c["i"]) and (k in ("recv-mut", "arg-mut") or cname(c) in NUMERIC_READS)]
+                        if fm and not early:
+                            notes.append("[%s] %s.format(0); return correct(%s, %s) (the defect of the null vector is %s)" % (tag, p0["n"], p0["n"], p1["n"], p1["n"]))
+                            for n in fn.nodes():
+                                if n.get("k") == "Return" and lo.resolve(n.get("e")).get("i") != cc[0]["i"]:
+                                    e = lo.resolve(n.get("e"))
+                                    if status_lit(e) is not None:
+                                        fwd_bad.append("[%s] line %s: apply() returns the literal %s, not the status of correct()" % (tag, n.get("l"), render(e)[:50]))
+                                    elif not (e.get("k") == "Member" and e.get("field") and e.get("n") == "_status"):
+                                        ck.incomplete("E7.status-forwarded", "%s line %s: returned status %s is not directly the result of correct()" % (where, n.get("l"), render(e)[:50]))
+                            continue
+                        if not fm:
+                            problems.append("[%s] apply() forwards to correct(%s, %s) without %s.format(0) before it: correct() takes the undefined contents of %s as the initial guess" % (tag, p0["n"], p1["n"], p0["n"], p0["n"]))
+                            continue
+                if not calls:
+                    # the iteration (and the common tail of apply/correct) behind a shared private helper: follow one level
+                    hc = []
+                    for c in fn.calls():
+                        if c.get("k") != "MCall" or not (c.get("obj") is None or c["obj"].get("k") == "This") or cname(c) in ("apply", "correct", "_apply_intern"):
+                            continue
+                        hs = [h for h in solvers.get(sc, {}).get(cname(c), []) if h.cls == fn.cls and h.cfg is not None]
+                        if not hs:
+                            continue
+                        inner = [x for x in hs[0].calls() if cname(x) == "_apply_intern"]
+                        if len(inner) == 1 and hs[0].cfg.must_pass(lambda n, _i=inner[0]["i"]: n.get("i") == _i)[0]:
+                            hc.append((c, hs[0], inner[0]))
+                    if len(hc) == 1:
+                        c, hfn, inner = hc[0]
+                        hlo = Locals(hfn)
+                        amap, okmap = [], True
+                        for a in inner.get("a", []):
+                            k = objkey(hlo, a)
+                            if re.match(r"^\$\d+$", k) and int(k[1:]) < len(c.get("a", [])):
+                                amap.append(c["a"][int(k[1:])])
+                            elif k.startswith("this."):
+                                amap.append(a)
+                            else:
+                                okmap = False
+                        pre = [x for x in hfn.calls() if x["i"] != inner["i"] and not hfn.cfg.stmt_dominates(inner["i"], x["i"]) and x.get("k") == "MCall" and not x.get("cconst")
+                               and ((x.get("obj") is not None and x["obj"].get("k") != "This" and "Vector" in strip_targs(hfn.ntype(x["obj"]) or "")) or cname(x) in ("apply", "filter_def", "filter_cor"))]
+                        if okmap and not pre:
+                            via = (hfn, inner)
+                            call0 = dict(c)
+                            call0["a"] = amap
+                            calls = [call0]
+                        else:
+                            ck.incomplete(rule, "%s: the iteration is delegated to %s(), which %s" % (where, hfn.name, "modifies vectors before it calls _apply_intern" if pre else "passes arguments to _apply_intern that this rule cannot map to the caller's"))
+                            continue
                 if len(calls) != 1:
                     ck.incomplete(rule, "%s: %d calls of _apply_intern (iteration delegated differently)" % (where, len(calls)))
                     continue
@@ -2146,14 +2357,23 @@ def rule_apply_correct(ck, solvers):
                     continue
                 sol_uses = [(k, c) for k, c in object_uses(fn, lo, "$0", before=call)]
                 def_uses = [(k, c) for k, c in object_uses(fn, lo, dobj, before=call)]
+                # own non-const helpers called before the iteration: they may provide what the rules below look for
+                pre_helpers = []
+                for c in fn.calls():
+                    if c.get("k") == "MCall" and (c.get("obj") is None or c["obj"].get("k") == "This") and not c.get("cconst") and c["i"] != call["i"] \
+                            and not fn.cfg.stmt_dominates(call["i"], c["i"]) and cname(c) not in ("_apply_intern", "plot_summary") \
+                            and short_cls(c.get("ccls", "")) in (sc, "IterativeSolver", "PreconditionedIterativeSolver", "SolverBase"):
+                        hs = [h for h in solvers.get(sc, {}).get(cname(c), []) if h.cls == fn.cls and h.cfg is not None]
+                        pre_helpers.append((c, hs[0] if hs else None))
+                helper_names = ", ".join(sorted({cname(c) for c, h in pre_helpers}))
                 intern_formats = same and any(c.get("k") == "MCall" and cname(c) in OVERWRITES and objkey(Locals(same[0]), c.get("obj")) == "$0" for c in same[0].calls())
                 if meth == "apply":
                     fm = [c for k, c in sol_uses if k == "recv-mut" and cname(c) == "format" and all(is_zero(lo, a) for a in c.get("a", []))
                           and fn.cfg.stmt_dominates(c["i"], call["i"])]
                     if not fm:
                         others = [c for k, c in sol_uses if k in ("recv-mut", "arg-mut")]
-                        if others or intern_formats:
-                            ck.incomplete(rule, "%s: no %s.format(0) before the iteration, but %s may define it" % (where, p0["n"], ", ".join(sorted({cname(c) for c in others})) or "_apply_intern"))
+                        if others or intern_formats or pre_helpers:
+                            ck.incomplete(rule, "%s: no %s.format(0) before the iteration, but %s may define it" % (where, p0["n"], ", ".join(sorted({cname(c) for c in others})) or helper_names or "_apply_intern"))
                         else:
                             problems.append("[%s] %s is neither formatted nor otherwise written before the iteration: apply() starts from whatever the caller left in it (documented: contents may be undefined on entry, the solver starts with the null vector)" % (tag, p0["n"]))
                     else:
@@ -2171,8 +2391,22 @@ def rule_apply_correct(ck, solvers):
                         writers = [c for k, c in def_uses if k in ("recv-mut", "arg-mut")]
                         rhs_elsewhere = [c for k, c in object_uses(fn, lo, "$1", before=call) if not (k == "arg-const" and cname(c) == "_apply_intern")]
                         asg = [n for n in fn.nodes() if as_assign(n) is not None and objkey(lo, as_assign(n)[0]) == dobj]
-                        if writers or asg:
-                            ck.incomplete(rule, "%s: %s is not set by %s.copy(%s) but written by %s" % (where, dobj, dobj, p1["n"], ", ".join(sorted({cname(c) for c in writers})) or "assignment"))
+                        hcopy = []
+                        for c, h in pre_helpers:
+                            # `_store_defect(vec_def)`: the copy inside a helper, its source bound to our right-hand side
+                            if h is None or not fn.cfg.stmt_dominates(c["i"], call["i"]):
+                                continue
+                            hl = Locals(h)
+                            for c2 in h.calls():
+                                if c2.get("k") == "MCall" and cname(c2) == "copy" and c2.get("obj") is not None and objkey(hl, c2["obj"]) == dobj and c2.get("a") \
+                                        and h.cfg.must_pass(lambda n, _i=c2["i"]: n.get("i") == _i)[0]:
+                                    k2 = objkey(hl, c2["a"][0])
+                                    if re.match(r"^\$\d+$", k2) and int(k2[1:]) < len(c.get("a", [])) and objkey(lo, c["a"][int(k2[1:])]) == "$1":
+                                        hcopy.append(c)
+                        if hcopy:
+                            notes.append("[%s] %s := copy(%s) inside %s(); %s.format(0)" % (tag, dobj, p1["n"], cname(hcopy[0]), p0["n"]))
+                        elif writers or asg or pre_helpers:
+                            ck.incomplete(rule, "%s: %s is not set by %s.copy(%s) but written by %s" % (where, dobj, dobj, p1["n"], ", ".join(sorted({cname(c) for c in writers})) or helper_names or "assignment"))
                         elif any(k == "arg-mut" or (k.startswith("arg") and cname(c) not in ("copy",)) for k, c in [(k, c) for k, c in object_uses(fn, lo, "$1", before=call)] if cname(c) != "_apply_intern"):
                             ck.incomplete(rule, "%s: %s is handed to %s; whether that defines %s is not modelled" % (where, p1["n"], ", ".join(sorted({cname(c) for c in rhs_elsewhere})), dobj))
                         else:
@@ -2200,7 +2434,43 @@ def rule_apply_correct(ck, solvers):
                                 tag, c.get("l"), render(c)[:50], got[0], got[1], got[2], term(lo, roles["alpha"]), dobj, p0["n"], p1["n"]))
                     other_writers = [c for k, c in def_uses if k in ("recv-mut", "arg-mut") and (good is None or c["i"] != good["i"]) and cname(c) != "filter_def"]
                     stepwise = defect_value(fn, lo, dobj, call) if good is None else None
-                    if good is None and stepwise == {"rhs": 1.0, "A*sol": -1.0}:
+                    via_helper = None
+                    if good is None and not wrong and not other_writers:
+                        # the defect computation behind a helper `_calc_defect(sol, rhs)`: decide it in the helper with its parameters bound here
+                        for c, h in pre_helpers:
+                            if h is None or not fn.cfg.stmt_dominates(c["i"], call["i"]):
+                                continue
+                            hl = Locals(h)
+                            for c2 in h.calls():
+                                if not (c2.get("k") == "MCall" and cname(c2) == "apply" and c2.get("obj") is not None and objkey(hl, c2["obj"]) == "this._system_matrix"):
+                                    continue
+                                roles = dict(zip(c2.get("pn", []), c2.get("a", [])))
+                                if set(roles) != {"r", "x", "y", "alpha"} or objkey(hl, roles["r"]) != dobj or not h.cfg.must_pass(lambda n, _i=c2["i"]: n.get("i") == _i)[0]:
+                                    continue
+
+                                def bound(e):
+                                    k2 = objkey(hl, e)
+                                    if re.match(r"^\$\d+$", k2) and int(k2[1:]) < len(c.get("a", [])):
+                                        return objkey(lo, c["a"][int(k2[1:])])
+                                    return k2
+                                got = (bound(roles["x"]), bound(roles["y"]), is_minus_one(hl, roles["alpha"]))
+                                filt = any(cname(c3) == "filter_def" and c3.get("a") and objkey(hl, c3["a"][0]) == dobj and objkey(hl, c3.get("obj")) == "this._system_filter"
+                                           and h.cfg.stmt_dominates(c2["i"], c3["i"]) and h.cfg.must_pass(lambda n, _i=c3["i"]: n.get("i") == _i)[0] for c3 in h.calls())
+                                later_w = [c3 for c3 in h.calls() if c3["i"] != c2["i"] and h.cfg.stmt_dominates(c2["i"], c3["i"]) and c3.get("k") == "MCall" and not c3.get("cconst")
+                                           and c3.get("obj") is not None and c3["obj"].get("k") != "This" and objkey(hl, c3["obj"]) == dobj]
+                                via_helper = (c, h, got, filt, later_w)
+                    if via_helper is not None:
+                        c, h, got, filt, later_w = via_helper
+                        if later_w:
+                            ck.incomplete(rule, "%s: %s() modifies %s after computing the defect (%s)" % (where, h.name, dobj, ", ".join(sorted({cname(x) for x in later_w}))))
+                        elif got != ("$0", "$1", True):
+                            problems.append("[%s] line %s: the defect computation in %s() called as %s has (x,y,alpha = -1?) = (%s,%s,%s); expected (%s, %s, True), i.e. rhs - A*sol into the vector measured by _set_initial_defect" % (
+                                tag, c.get("l"), h.name, render(c)[:50], got[0], got[1], got[2], p0["n"], p1["n"]))
+                        elif not filt and not any(k == "arg-mut" and cname(c3) == "filter_def" and fn.cfg.stmt_dominates(c["i"], c3["i"]) and fn.cfg.stmt_dominates(c3["i"], call["i"]) for k, c3 in def_uses):
+                            ck.incomplete(rule, "%s: the defect computed in %s() is not followed by a _system_filter.filter_def this rule can order" % (where, h.name))
+                        else:
+                            notes.append("[%s] %s := filter_def(%s - A*%s) inside %s()" % (tag, dobj, p1["n"], p0["n"], h.name))
+                    elif good is None and stepwise == {"rhs": 1.0, "A*sol": -1.0}:
                         # rhs - A*sol assembled in several vector operations
                         fl = [c for k, c in def_uses if k == "arg-mut" and cname(c) == "filter_def" and objkey(lo, c.get("obj")) == "this._system_filter" and fn.cfg.stmt_dominates(c["i"], call["i"])]
                         last_writer = max([c["i"] for k, c in def_uses if k == "recv-mut" or (k == "arg-mut" and cname(c) == "apply")] or [0])
@@ -2217,6 +2487,8 @@ def rule_apply_correct(ck, solvers):
                             ck.incomplete(rule, "%s: %s; further writers of %s: %s" % (where, wrong[0][:160], dobj, ", ".join(sorted({cname(c) for c in other_writers}))))
                         elif wrong:
                             problems.extend(wrong[:1])
+                        elif pre_helpers:
+                            ck.incomplete(rule, "%s: correct() does not write %s itself, but calls %s before the iteration, which this rule could not follow" % (where, dobj, helper_names))
                         else:
                             problems.append("[%s] correct() never writes %s, the vector measured by _set_initial_defect: the initial defect is not rhs - A*sol" % (tag, dobj))
                     else:
@@ -2227,25 +2499,26 @@ def rule_apply_correct(ck, solvers):
                         else:
                             later = [c for k, c in def_uses if k in ("arg-mut", "recv-mut") and c["i"] != good["i"]]
                             in_intern = same and any(cname(c) == "filter_def" for c in same[0].calls() if c.get("a") and objkey(Locals(same[0]), c["a"][0]) == dobj)
-                            if later or in_intern:
-                                ck.incomplete(rule, "%s: no _system_filter.filter_def(%s) between the defect computation and the iteration, but %s may filter it" % (where, dobj, ", ".join(sorted({cname(c) for c in later})) or "_apply_intern"))
+                            if later or in_intern or pre_helpers:
+                                ck.incomplete(rule, "%s: no _system_filter.filter_def(%s) between the defect computation and the iteration, but %s may filter it" % (where, dobj, ", ".join(sorted({cname(c) for c in later})) or helper_names or "_apply_intern"))
                             else:
                                 problems.append("[%s] the initial defect %s is not passed through _system_filter.filter_def before the iteration (constrained dofs keep a non-zero defect)" % (tag, dobj))
-                # the status of the run is what the caller gets
-                for n in fn.nodes():
-                    if n.get("k") != "Return":
-                        continue
-                    e = lo.resolve(n.get("e"))
-                    if e.get("i") == call["i"]:
-                        continue
-                    if e.get("k") == "Member" and e.get("field"):
-                        asg = [a for a in fn.nodes() if a.get("k") == "Assign" and term(lo, a["lhs"]) == term(lo, e)]
-                        if len(asg) == 1 and lo.resolve(asg[0]["rhs"]).get("i") == call["i"] and fn.cfg.stmt_dominates(asg[0]["i"], n["i"]):
+                # the status of the run is what the caller gets (through the shared helper, if the iteration is delegated)
+                for ufn, ulo, ucall, uname, what in [(fn, lo, call, meth, "_apply_intern" if via is None else via[0].name)] + ([(via[0], Locals(via[0]), via[1], via[0].name, "_apply_intern")] if via is not None else []):
+                    for n in ufn.nodes():
+                        if n.get("k") != "Return":
                             continue
-                    if status_lit(e) is not None:
-                        fwd_bad.append("[%s] line %s: %s() returns the literal %s, not the status of _apply_intern" % (tag, n.get("l"), meth, render(e)[:50]))
-                    else:
-                        ck.incomplete("E7.status-forwarded", "%s line %s: returned status %s is not directly the result of _apply_intern" % (where, n.get("l"), render(e)[:50]))
+                        e = ulo.resolve(n.get("e"))
+                        if e.get("i") == ucall["i"]:
+                            continue
+                        if e.get("k") == "Member" and e.get("field"):
+                            asg = [a for a in ufn.nodes() if a.get("k") == "Assign" and term(ulo, a["lhs"]) == term(ulo, e)]
+                            if len(asg) == 1 and ulo.resolve(asg[0]["rhs"]).get("i") == ucall["i"] and ufn.cfg.stmt_dominates(asg[0]["i"], n["i"]):
+                                continue
+                        if status_lit(e) is not None:
+                            fwd_bad.append("[%s] line %s: %s() returns the literal %s, not the status of %s" % (tag, n.get("l"), uname, render(e)[:50], what))
+                        else:
+                            ck.incomplete("E7.status-forwarded", "%s line %s: returned status %s is not directly the result of %s" % (where, n.get("l"), render(e)[:50], what))
             f0 = fns[0]
             ck.ob(rule, "%s::%s" % (sc, meth), not problems, "; ".join(problems[:3]) if problems else "; ".join(notes[:2]) or "see analysis_incomplete", f0.file, f0.line)
             ck.ob("E7.status-forwarded", "%s::%s" % (sc, meth), not fwd_bad, "; ".join(fwd_bad[:2]) if fwd_bad else "returns the status computed by _apply_intern (stored in _status)", f0.file, f0.line)
@@ -2406,7 +2679,7 @@ def rule_config(ck, facts):
             rets = [n for n in fn.nodes() if n.get("k") == "Return"]
             if len(rets) != 1:
                 continue
-            e = strip(rets[0].get("e"))
+            e = Locals(fn).resolve(rets[0].get("e"))          # through const locals / reference aliases
             if not (e.get("k") == "Member" and e.get("field")):
                 continue            # computed summaries (get_summary, ...) are not configuration getters
             seen.add(fn.name)
@@ -2418,9 +2691,18 @@ def rule_config(ck, facts):
         cfs = class_functions(facts, sc)
         ctor_qns = {f.qn for f in cfs if f.d.get("ctor")}
         lambdas = [f for f in facts.functions if "<lambda@" in f.qn and any(f.qn.startswith(q + "::<lambda@") for q in ctor_qns)]
-        for fn in [f for f in cfs if f.d.get("ctor")] + lambdas:
+        # member / static helpers that read a PropertyMap entry whose key is one of their parameters (called by a constructor)
+        parsers, seen_p = [], set()
+        for f in cfs:
+            if f.d.get("ctor") or f.d.get("decl") in seen_p:
+                continue
+            if any(q.get("k") == "MCall" and cname(q) in ("get_entry", "query") and "PropertyMap" in q.get("callee", "") and q.get("a")
+                   and Locals(f).resolve(q["a"][0]).get("dk") == "param" for q in f.calls()):
+                seen_p.add(f.d.get("decl"))
+                parsers.append(f)
+        for fn in [f for f in cfs if f.d.get("ctor")] + lambdas + parsers:
             lo = Locals(fn)
-            is_lambda = "<lambda@" in fn.qn
+            is_lambda = "<lambda@" in fn.qn or any(fn is x for x in parsers)
             own_calls = [x for x in walk(fn.body, prune=lambda n: n.get("k") == "Lambda") if is_call(x)]
             for q in own_calls:
                 if q.get("k") != "MCall" or cname(q) not in ("get_entry", "query") or "PropertyMap" not in q.get("callee", ""):
@@ -2489,10 +2771,12 @@ def rule_config(ck, facts):
                     for caller in cfs:
                         clo = None
                         for c in caller.calls():
-                            if c.get("k") == "OpCall" and c.get("op") == "()" and c.get("cdecl") == fn.d.get("decl"):
+                            is_functor = c.get("k") == "OpCall" and c.get("op") == "()" and c.get("cdecl") == fn.d.get("decl")
+                            is_member = c.get("k") in ("MCall", "Call") and c.get("cdecl") == fn.d.get("decl") and caller is not fn
+                            if is_functor or is_member:
                                 ncalls += 1
                                 clo = clo or Locals(caller)
-                                args = c["a"][1:]
+                                args = c["a"][1:] if is_functor else c["a"]
                                 ks = [x["v"] for x in walk(args[kparam]) if x.get("k") == "Str"] if kparam < len(args) else []
                                 if len(ks) != 1:
                                     ck.incomplete("E1.config-key-field", "%s line %s: key argument of the parsing lambda is not a string literal" % (sc, c.get("l")))
@@ -2528,27 +2812,67 @@ def rule_config(ck, facts):
                               else "key \"%s\" -> %s" % (key, want), where.file, line)
 
 
-def _rewrite_inner_atom(a, dterm):
-    """le(D, mul(_inner_res_scale, R)) -> (le($def_cur,R), scaled) ; le(D, R) -> (le($def_cur,R), unscaled)"""
-    m = re.match(r"le\((.*)\)$", a)
+def flat_mul(t):
+    """canonical product: nested mul(...) flattened and sorted: mul(a,mul(c,b)) -> mul(a,b,c)"""
+    m = re.match(r"^mul\((.*)\)$", t)
     if not m:
-        return None
-    l, r = split_top(m.group(1))
-    if l != dterm:
-        return None
-    scaled = False
-    m2 = re.match(r"mul\((.*)\)$", r)
-    if m2:
-        x, y = split_top(m2.group(1))
-        if x == "_inner_res_scale":
-            r, scaled = y, True
-        elif y == "_inner_res_scale":
-            r, scaled = x, True
-    return "le($def_cur,%s)" % r, scaled
+        return t
+    fs, rest = [], m.group(1)
+    while rest:
+        a, rest = split_top(rest)
+        a = flat_mul(a)
+        m2 = re.match(r"^mul\((.*)\)$", a)
+        if m2:
+            r2 = m2.group(1)
+            while r2:
+                b, r2 = split_top(r2)
+                fs.append(b)
+        else:
+            fs.append(a)
+    return "mul(%s)" % ",".join(sorted(fs))
 
 
-def rule_inner_criteria(ck, solvers):
-    """(F)GMRES replicate the stopping tests for the inner (pseudo-residual) iterations"""
+CRIT_FIELDS = ("_tol_abs", "_tol_rel", "_tol_abs_low", "_div_abs", "_div_rel")
+INNER_S = "_inner_res_scale"
+# documented criteria in terms of the pseudo-residual $D (class docs of GMRES/FGMRES + IterativeSolver::_tol_rel)
+INNER_ATOMS = {
+    "div_abs": "le($D,_div_abs)", "div_rel": "le($D,mul(_def_init,_div_rel))",
+    "tol_abs": "le($D,mul(_inner_res_scale,_tol_abs))", "tol_rel": "le($D,mul(_def_init,_inner_res_scale,_tol_rel))",
+    "tol_low": "le($D,mul(_inner_res_scale,_tol_abs_low))", "min": "le(_min_iter,_num_iter)", "max": "le(_max_iter,_num_iter)",
+}
+
+
+def inner_oracle(env):
+    A = INNER_ATOMS
+    div = (not env[A["div_abs"]]) or (not env[A["div_rel"]])
+    conv = env[A["tol_abs"]] and (env[A["tol_rel"]] or env[A["tol_low"]])
+    return div, env[A["min"]], conv, env[A["max"]]
+
+
+def _map_formula(f, fn_atom):
+    if f[0] == "atom":
+        return ("atom", fn_atom(f[1]))
+    if f[0] == "not":
+        return ("not", _map_formula(f[1], fn_atom))
+    if f[0] in ("and", "or"):
+        return (f[0], _map_formula(f[1], fn_atom), _map_formula(f[2], fn_atom))
+    return f
+
+
+def _without_scale(t):
+    m = re.match(r"^mul\((.*)\)$", t)
+    if not m:
+        return t
+    fs = [x for x in m.group(1).split(",") if x != INNER_S] if "(" not in m.group(1) else None
+    if fs is None:
+        return t
+    return fs[0] if len(fs) == 1 else "mul(%s)" % ",".join(fs)
+
+
+def rule_inner_criteria(ck, solvers, facts=None):
+    """(F)GMRES replicate the stopping tests for the inner (pseudo-residual) iterations.  Decided on the CFG region from the first
+    criterion test of the inner Krylov loop to the loop head (iteration continues) or a loop exit (iteration stops): decision table
+    of all paths (own helpers followed) against  stop <=> diverged(D) or (num_iter >= min_iter and (converged_scaled(D) or num_iter >= max_iter))"""
     for sc in ("FGMRES", "GMRES"):
         path = featlib.repo_path(SOLVER_DIR + SOLVERS[sc])
         need = "one can ensure that the inner GMRES loop has to fulfill a tighter tolerance than the outer loop"
@@ -2560,74 +2884,148 @@ def rule_inner_criteria(ck, solvers):
             ck.incomplete("E13.inner-criteria", "oracle anchor text changed: the %s class documentation no longer explains the inner residual scaling (\"%s\")" % (sc, need))
             continue
         for fn in solvers.get(sc, {}).get("_apply_intern", [])[:1]:
-            lo, gd = Locals(fn), Guards(fn)
-            found = {}
-            for n in fn.nodes():
-                if n.get("k") != "If":
+            cfg = fn.cfg
+            lo = Locals(fn)
+            keys = {"converged": "%s::_apply_intern/inner-converged" % sc, "diverged": "%s::_apply_intern/inner-diverged" % sc}
+
+            def give_up(msg):
+                ck.incomplete("E13.inner-criteria", "%s::_apply_intern: %s" % (sc, msg))
+            methods = {}
+            for mname, mfl in solvers.get(sc, {}).items():
+                cand = [f for f in mfl if f.cls == fn.cls and f.cfg is not None and not f.d.get("ctor") and not f.d.get("virtual")]
+                if cand and mname not in BASE_KNOWN and mname not in UPD and not mname.startswith("_apply_precond"):
+                    methods[mname] = cand[0]
+            # blocks whose branch condition tests a tolerance (directly or through an own helper that does)
+            def mentions_criterion(f, depth=0):
+                for x in walk(f.body):
+                    if x.get("k") == "Member" and x.get("n") in CRIT_FIELDS:
+                        return True
+                    if depth < 2 and x.get("k") == "MCall" and cname(x) in methods and methods[cname(x)] is not f and mentions_criterion(methods[cname(x)], depth + 1):
+                        return True
+                return False
+            crit_helpers = {n for n, f in methods.items() if mentions_criterion(f)}
+            crit_blocks = []
+            for bid, b in cfg.blocks.items():
+                ids = list(b["el"]) + ([b["cond"]] if b.get("cond") is not None else [])
+                hit = False
+                for sid in ids:
+                    n = fn.by_id(sid)
+                    for x in walk(n) if n is not None else ():
+                        if (x.get("k") == "Member" and x.get("n") in CRIT_FIELDS) or (x.get("k") == "MCall" and cname(x) in crit_helpers):
+                            hit = True
+                if hit:
+                    crit_blocks.append(bid)
+            if not crit_blocks:
+                give_up("no replicated inner stopping test found (no branch of _apply_intern mentions %s)" % "/".join(CRIT_FIELDS[:2]))
+                continue
+            # innermost loop containing all of them
+            loops = []
+            for head, hb in cfg.blocks.items():
+                if hb.get("term") in ("WhileStmt", "ForStmt", "DoStmt"):
+                    body = natural_loop(cfg, head)
+                    if all(cb in body for cb in crit_blocks):
+                        loops.append((len(body), head, body))
+            if not loops:
+                give_up("the inner stopping tests (lines %s) do not lie in one loop" % compress(cfg.block_lines(crit_blocks)))
+                continue
+            _n, head, body = min(loops)
+            firsts = [cb for cb in crit_blocks if all(cb in cfg.dom.get(o, ()) for o in crit_blocks)]
+            if not firsts:
+                give_up("no inner stopping test dominates the others (lines %s)" % compress(cfg.block_lines(crit_blocks)))
+                continue
+            start = firsts[0]
+            stops = {head: "stay"}
+            for b in body:
+                for x in cfg.succ.get(b, []):
+                    if x is not None and x not in body:
+                        stops[x] = "stop"
+            ps = Paths(fn, methods=methods, start=start, stops=stops)
+            if ps.problems or not ps.paths:
+                give_up("the region of the inner stopping tests (from line %s) is not a loop-free decision region: %s" % (compress(cfg.block_lines([start])[:1]), "; ".join(sorted(set(ps.problems))[:2]) or "no path"))
+                continue
+            if any(p["out"] not in ("stay", "stop") for p in ps.paths):
+                give_up("a path through the inner stopping tests leaves the function (%s)" % sorted({str(p["out"])[:30] for p in ps.paths if p["out"] not in ("stay", "stop")}))
+                continue
+            # identify the pseudo-residual D and normalise the atoms
+            raw = sorted(ps.atoms())
+            dcands = set()
+            for a in raw:
+                m = re.match(r"^le\((.*)\)$", a)
+                if not m or not any(cf in a for cf in CRIT_FIELDS):
                     continue
-                names = {x.get("n") for x in walk(n["c"]) if x.get("k") == "Member"}
-                kind = "converged" if "_tol_abs" in names else ("diverged" if "_div_abs" in names else None)
-                if kind is None:
+                l, r = split_top(m.group(1))
+                for side, other in ((l, r), (r, l)):
+                    if not any(cf in side for cf in CRIT_FIELDS) and any(cf in other for cf in CRIT_FIELDS):
+                        dcands.add(side)
+            if len(dcands) != 1:
+                give_up("the comparisons of the inner stopping tests share no single tested quantity (%s)" % sorted(dcands))
+                continue
+            dterm = dcands.pop()
+
+            def norm_atom(a):
+                m = re.match(r"^(le|eq)\((.*)\)$", a)
+                if not m:
+                    return a
+                l, r = split_top(m.group(2))
+                l, r = ["$D" if x == dterm else flat_mul(x) for x in (l, r)]
+                return "%s(%s,%s)" % (m.group(1), l, r)
+            paths = [{"cons": [(_map_formula(f, norm_atom), pol) for f, pol in p["cons"]], "out": p["out"]} for p in ps.paths]
+            code_atoms = set()
+            for p in paths:
+                for f, pol in p["cons"]:
+                    f_atoms(f, code_atoms)
+            doc = set(INNER_ATOMS.values())
+            relevant, unknown, notes = set(), [], []
+            for a in sorted(code_atoms):
+                if a in doc:
+                    relevant.add(a)
                     continue
-                found[kind] = n
-            for kind, atoms, orc, want_scaled in (("converged", ATOMS_CONV, oracle_is_converged, True), ("diverged", ATOMS_DIV, oracle_is_diverged, False)):
-                key = "%s::_apply_intern/inner-%s" % (sc, kind)
-                n = found.get(kind)
-                if n is None:
-                    ck.incomplete("E13.inner-criteria", "%s: inner %s test not found" % (sc, kind))
+                m = re.match(r"^le\((.*)\)$", a)
+                l, r = split_top(m.group(1)) if m else ("", "")
+                if m and "le(%s,%s)" % (r, l) in doc:
+                    relevant.add(a)         # same operands compared the other way round (strictness / orientation)
+                    notes.append("%s compares the operands of the documented %s the other way round" % (a, "le(%s,%s)" % (r, l)))
                     continue
-                f = formula(lo, n["c"])
-                code_atoms = sorted(f_atoms(f))
-                sides = [set(split_top(a[3:-1])) for a in code_atoms if a.startswith("le(")]
-                common = set.intersection(*sides) if sides else set()
-                if len(common) != 1:
-                    ck.incomplete("E13.inner-criteria", "%s line %s: the comparisons share no single tested quantity %s (not the replicated criterion shape)" % (key, n.get("l"), [sorted(x) for x in sides]))
+                if m and l == "$D" and any(_without_scale(r) == _without_scale(split_top(d[3:-1])[1]) for d in doc if d.startswith("le($D,")):
+                    relevant.add(a)         # a documented bound with / without the _inner_res_scale factor
+                    notes.append("%s: the bound is %s by _inner_res_scale" % (a, "scaled" if INNER_S in r else "not scaled"))
                     continue
-                dterm = common.pop()
-                ren, bad, unknown_atom = {}, [], None
-                # the same two operands compared the other way round: `D < R` (= !le(R,D)) where the criterion has `D <= R`
-                flipped = [a for a in code_atoms if a.startswith("le(") and split_top(a[3:-1])[1] == dterm and split_top(a[3:-1])[0] != dterm]
-                if flipped:
-                    bound = split_top(flipped[0][3:-1])[0]
-                    doc_op, code_form = ("<=", "%s < %s or %s >= %s") if kind == "converged" else (">", "%s >= %s or %s < %s")
-                    ck.ob("E13.inner-criteria", key, False,
-                          "line %s: the replicated test compares %s with %s as %s instead of `%s %s %s`: same operands, different strictness/orientation; witness %s == %s%s" % (
-                              n.get("l"), dterm, bound, code_form % (dterm, bound, dterm, bound), dterm, doc_op, bound, dterm, bound,
-                              " (inner_res_scale = 0 and an exactly zero inner residual: the documented stop for an exhausted Krylov space never fires)" if kind == "converged" else ""),
-                          fn.file, n.get("l"))
+                if "$D" in a or any(x in a for x in CRIT_FIELDS + ("_min_iter", "_max_iter")):
+                    unknown.append(a)
+            if unknown:
+                give_up("line %s: comparison(s) %s are not of the form <pseudo-residual> <= [_inner_res_scale *] tolerance / _num_iter vs _min_iter, _max_iter" % (compress(cfg.block_lines([start])[:1]), ", ".join(unknown[:3])))
+                continue
+            atoms = sorted(doc | relevant)
+            other = sorted(code_atoms - set(atoms))
+            bad = {"converged": [], "diverged": []}
+            nenv = 0
+            for bits in itertools.product((False, True), repeat=len(atoms)):
+                env = dict(zip(atoms, bits))
+                if not consistent(env):
                     continue
-                for a in code_atoms:
-                    rw = _rewrite_inner_atom(a, dterm)
-                    if rw is None:
-                        unknown_atom = a
+                nenv += 1
+                div, minok, conv, mx = inner_oracle(env)
+                want = "stop" if (div or (minok and (conv or mx))) else "stay"
+                grp = "diverged" if (div or not minok) else "converged"
+                if bad[grp]:
+                    continue
+                # the outcome must not depend on the atoms outside the criterion (plot flags, ...): try all of them
+                for obits in itertools.product((False, True), repeat=min(len(other), 6)):
+                    full = dict(env)
+                    full.update({a: False for a in other})
+                    full.update(zip(other, obits))
+                    outs = {p["out"] for p in paths if all(f_eval(f, full) == pol for f, pol in p["cons"])}
+                    if outs != {want}:
+                        wit = ", ".join("%s=%s" % (a, "T" if env[a] else "F") for a in atoms)
+                        word = {"stay": "continues", "stop": "stops"}
+                        bad[grp].append("for {%s} the inner iteration %s, but by the documented criteria (diverged: unscaled; converged: every tolerance times _inner_res_scale, only after _min_iter iterations; _max_iter) it %s%s" % (
+                            wit, "/".join(word[o] for o in sorted(outs)) or "has no path", word[want], ("; " + "; ".join(notes[:2])) if notes else ""))
                         break
-                    elif rw[1] != want_scaled:
-                        bad.append("%s is %s by _inner_res_scale" % (a, "scaled" if rw[1] else "not scaled"))
-                    else:
-                        ren[a] = rw[0]
-                if unknown_atom is not None:
-                    ck.incomplete("E13.inner-criteria", "%s line %s: comparison %s is not of the form <pseudo-residual> <= [_inner_res_scale *] tolerance" % (key, n.get("l"), unknown_atom))
-                    continue
-                if not bad and sorted(set(ren.values())) != sorted(atoms):
-                    bad.append("comparisons %s, documented %s" % (sorted(set(ren.values())), sorted(atoms)))
-                if not bad:
-                    for bits in itertools.product((False, True), repeat=len(atoms)):
-                        env = dict(zip(sorted(atoms), bits))
-                        cenv = {a: env[ren[a]] for a in code_atoms}
-                        if f_eval(f, cenv) != orc(env)[0]:
-                            bad.append("for %s the inner test is %s, the %s criterion of IterativeSolver says %s" % (env, f_eval(f, cenv), kind, orc(env)[0]))
-                            break
-                if kind == "converged" and not bad:
-                    blk = None
-                    for b_id, b in fn.cfg.blocks.items():
-                        if b.get("cond") is not None and any(x.get("i") == b["cond"] for x in walk(n["c"])):
-                            blk = b_id
-                            break
-                    g = gd.of_block(blk) if blk is not None else []
-                    if not any({x.get("n") for x in walk(c) if x.get("k") == "Member"} >= {"_min_iter", "_num_iter"} for c, pol in g):
-                        bad.append("the inner convergence test is not guarded by the minimum-iteration test (_num_iter < _min_iter)")
-                ck.ob("E13.inner-criteria", key, not bad, "line %s: %s" % (n.get("l"), "; ".join(bad[:2])) if bad else
-                      "line %s: inner %s test on %s equals the %s criterion with %s tolerances" % (n.get("l"), kind, dterm, kind, "_inner_res_scale-scaled" if want_scaled else "unscaled"), fn.file, n.get("l"))
+            ln = compress(cfg.block_lines([start])[:1])
+            for grp in ("converged", "diverged"):
+                ck.ob("E13.inner-criteria", keys[grp], not bad[grp], ("line %s: " % ln) + bad[grp][0] if bad[grp] else
+                      "region from line %s: inner %s test on %s equals the %s criterion with %s tolerances (%d assignments of %d atoms, %d paths)" % (
+                          ln, grp, dterm, grp, "_inner_res_scale-scaled" if grp == "converged" else "unscaled", nenv, len(atoms), len(paths)), fn.file, int(ln) if ln.isdigit() else fn.line)
 
 
 
@@ -2737,6 +3135,8 @@ class ListFlow:
         self.exits = []
         self.outs = {}
         cfg = fn.cfg
+        self.loops = {} if self.counters else self.counted_loops()
+        back = {(b, h) for h, lp in self.loops.items() for b in lp["body"] if b != h and h in cfg.succ.get(b, [])}
         self.ins = {cfg.entry: dict(entry)}
         work = [cfg.entry]
         n = 0
@@ -2745,7 +3145,12 @@ class ListFlow:
             b = work.pop()
             out = self.transfer(b, dict(self.ins[b]), False)
             for s in cfg.succ.get(b, []):
-                new = self.join(self.ins.get(s), out, s)
+                if (b, s) in back:
+                    continue                      # a summarised counted loop: its effect is applied on the exit edge in closed form
+                o2 = out
+                if b in self.loops and s not in self.loops[b]["body"]:
+                    o2 = self.after_loop(out, self.loops[b])
+                new = self.join(self.ins.get(s), o2, s)
                 if new != self.ins.get(s):
                     self.ins[s] = new
                     work.append(s)
@@ -2753,7 +3158,8 @@ class ListFlow:
             out = self.transfer(b, dict(self.ins[b]), True)
             self.outs[b] = out
             if b in cfg.normal_exit_preds():
-                self.exits.append((b, out))
+                # (the head of a summarised loop that is the last statement of the function: its exit edge leads to the exit block)
+                self.exits.append((b, self.after_loop(out, self.loops[b]) if b in self.loops else out))
 
     def field_of(self, e):
         if self.any_vector:
@@ -2762,6 +3168,112 @@ class ListFlow:
                 return e2["n"]
             return None
         return list_field_of(self.fn, self.lo, e)
+
+    # --- counted loops `for(i = c0; i < E; ++i) { X.push_back(..); Y.push_back(..); }` in closed form: |X| += k_X * (E - c0).
+    # With that, one fused allocation loop and one loop per list leave the same symbolic lengths.
+    def counted_loops(self):
+        fn, cfg, lo = self.fn, self.fn.cfg, self.lo
+        out = {}
+        where = {}
+        for bid, b in cfg.blocks.items():
+            for sid in b["el"]:
+                where[sid] = bid
+        for head, hb in cfg.blocks.items():
+            if hb.get("term") not in ("ForStmt", "WhileStmt") or hb.get("cond") is None:
+                continue
+            body = natural_loop(cfg, head)
+            if len(body) < 2:
+                continue
+            # the only way out is the head's condition; the body is one straight line
+            if any(x not in body for b in body if b != head for x in cfg.succ.get(b, [])):
+                continue
+            if any(len({x for x in cfg.succ.get(b, []) if x is not None}) != 1 for b in body if b != head):
+                continue
+            c = strip(fn.by_id(hb["cond"]) or {})
+            if c.get("k") != "Bin" or c.get("op") not in ("<", "<=", "!="):
+                continue
+            iv = strip(c["lhs"])
+            if iv.get("k") != "Ref" or iv.get("dk") != "local":
+                continue
+            d = iv["d"]
+            v = lo.var.get(d)
+            if v is None or v.get("ref") or v.get("init") is None or strip(v["init"]).get("k") != "Int":
+                continue
+            decl_b = [where.get(x["i"]) for x in fn.nodes() if x.get("k") == "Decl" and any(vv["d"] == d for vv in x.get("vars", []))]
+            if not decl_b or decl_b[0] in body or decl_b[0] is None:
+                continue
+            steps, other_writes = 0, 0
+            for x in fn.nodes():
+                tgt = None
+                if x.get("k") == "Un" and x.get("op") in ("++", "--"):
+                    tgt = strip(x["e"])
+                elif x.get("k") == "Assign":
+                    tgt = strip(x["lhs"])
+                if tgt is None or tgt.get("k") != "Ref" or tgt.get("d") != d:
+                    continue
+                st_ = x if "i" in x and where.get(x["i"]) is not None else None
+                inside = st_ is not None and where.get(st_["i"]) in body
+                if inside and ((x.get("k") == "Un" and x.get("op") == "++") or (x.get("k") == "Assign" and plus_one(x) == 1)):
+                    steps += 1
+                else:
+                    other_writes += 1
+            if steps != 1 or other_writes:
+                continue
+            bound = c["rhs"]
+            if any(y.get("k") == "Ref" and y.get("dk") == "local" and lo.writes.get(y.get("d"), 0) > 0 for y in walk(bound)):
+                continue
+            # list operations in the body: pushes only
+            k, ok = {}, True
+            for b in body:
+                for sid in cfg.blocks[b]["el"]:
+                    x = fn.by_id(sid)
+                    if x is None or not is_call(x):
+                        continue
+                    nm = cname(x)
+                    fld = self.field_of(x["obj"]) if (x.get("k") == "MCall" and x.get("obj") is not None) else None
+                    if fld in self.group:
+                        if nm in ("push_back", "emplace_back"):
+                            k[fld] = k.get(fld, 0) + 1
+                        elif nm not in LEN_NEUTRAL and nm not in ("at", "front", "back"):
+                            ok = False
+                    elif x.get("k") == "MCall" and (x.get("obj") is None or x["obj"].get("k") == "This") and nm in self.touching:
+                        ok = False
+                    if any(y.get("k") == "MCall" and cname(y) == "size" and y.get("obj") is not None and self.field_of(y["obj"]) in self.group for y in walk(bound)) and fld in self.group and nm in LEN_DELTA:
+                        ok = False
+            if not ok or not k:
+                continue
+            out[head] = {"body": body, "k": k, "bound": bound, "c0": int(strip(v["init"])["v"]), "op": c["op"]}
+        return out
+
+    def after_loop(self, st, lp):
+        st = dict(st)
+        t = self.ev(lp["bound"], st)
+        toff = -lp["c0"] + (1 if lp["op"] == "<=" else 0)          # trip count = bound + toff
+        for fld, k in lp["k"].items():
+            cur = st.get(fld, TOP)
+            if cur == TOP:
+                continue
+            parts = [] if cur[0] == "0" else (cur[0][4:-1].split(";") if cur[0].startswith("sum(") else [cur[0]])
+            parts = sorted(parts + [t] * k)
+            st[fld] = (parts[0] if len(parts) == 1 else "sum(%s)" % ";".join(parts), cur[1] + k * toff)
+        return st
+
+    def erase_tail(self, n, fld):
+        """X.erase(X.begin() + E, X.end()) -> E (the new length, for E <= size), else None"""
+        a = n.get("a", [])
+        if len(a) != 2:
+            return None
+        first, last = strip(a[0]), strip(a[1])
+        if not (last.get("k") == "MCall" and cname(last) in ("end", "cend") and self.field_of(last.get("obj")) == fld):
+            return None
+        if first.get("k") in ("OpCall", "Bin") and first.get("op") == "+":
+            ops = first.get("a") if first.get("k") == "OpCall" else [first.get("lhs"), first.get("rhs")]
+            if len(ops) == 2:
+                for x, y in ((ops[0], ops[1]), (ops[1], ops[0])):
+                    x = strip(x)
+                    if x.get("k") == "MCall" and cname(x) in ("begin", "cbegin") and self.field_of(x.get("obj")) == fld:
+                        return y
+        return None
 
     def counter_step(self, n, st):
         """effect of a CFG element on the tracked integer counters; returns True if it was one"""
@@ -2783,6 +3295,8 @@ class ListFlow:
             r = strip(n["rhs"])
             if n.get("op") in ("+=", "-=") and r.get("k") == "Int" and st.get(ck2, TOP) != TOP:
                 st[ck2] = (st[ck2][0], st[ck2][1] + (int(r["v"]) if n["op"] == "+=" else -int(r["v"])))
+            elif n.get("op") == "=" and plus_one(n) is not None and st.get(ck2, TOP) != TOP:
+                st[ck2] = (st[ck2][0], st[ck2][1] + plus_one(n))
             elif n.get("op") == "=" and r.get("k") == "Int" and str(r.get("v")) == "0":
                 st[ck2] = ("0", 0)
             else:
@@ -2928,6 +3442,8 @@ class ListFlow:
                     st[fld] = ("0", 0)
                 elif nm == "resize":
                     st[fld] = (self.ev(n["a"][0], st), 0)
+                elif nm == "erase" and self.erase_tail(n, fld) is not None:
+                    st[fld] = (self.ev(self.erase_tail(n, fld), st), 0)     # erase(begin()+E, end()) keeps the first E entries
                 elif nm in ("at", "front", "back"):
                     if record and self.diffs(st) != self.rel and not any(st[g] == TOP for g in self.group):
                         self.bad_uses.append((n.get("l"), render(n)[:50], self.describe(st)))
@@ -2965,6 +3481,19 @@ class ListFlow:
 
     def describe(self, st):
         return ", ".join("%s = %s" % (self.name_of(g), "unknown" if st.get(g, TOP) == TOP else len_str(st[g])) for g in self.group)
+
+
+def plus_one(n):
+    """`x += c` / `x = x + c` / `x = c + x` with an integer literal c -> c, else None"""
+    l, r = strip(n["lhs"]), strip(n["rhs"])
+    if n.get("op") == "+=" and r.get("k") == "Int":
+        return int(r["v"])
+    if n.get("op") == "=" and r.get("k") == "Bin" and r.get("op") == "+":
+        a, b = strip(r["lhs"]), strip(r["rhs"])
+        for x, y in ((a, b), (b, a)):
+            if x.get("k") == "Ref" and x.get("d") == l.get("d") and y.get("k") == "Int":
+                return int(y["v"])
+    return None
 
 
 def natural_loop(cfg, head):
@@ -3010,8 +3539,13 @@ def rule_step_counters(ck, solvers):
                 for b in loop:
                     for sid in cfg.blocks[b]["el"]:
                         n = fn.by_id(sid)
+                        inc = None
                         if n is not None and n.get("k") == "Un" and n.get("op") == "++" and strip(n["e"]).get("k") == "Ref" and strip(n["e"]).get("dk") == "local":
-                            d = strip(n["e"])["d"]
+                            inc = strip(n["e"])
+                        elif n is not None and n.get("k") == "Assign" and strip(n["lhs"]).get("k") == "Ref" and strip(n["lhs"]).get("dk") == "local" and plus_one(n) is not None:
+                            inc = strip(n["lhs"])
+                        if inc is not None:
+                            d = inc["d"]
                             v = lo.var.get(d)
                             if v is None or v.get("ref") or not re.search(r"Index|int|long|size_t", fn.type(v.get("t")) or ""):
                                 continue
@@ -3150,6 +3684,9 @@ def rule_parallel_lists(ck, solvers):
                         if name == "init_symbolic":
                             if d is None and any(st[g] == TOP for g in glist):
                                 ck.incomplete("E7.parallel-lists", "%s [%s]: list lengths after init_symbolic depend on loop trip counts the length dataflow does not relate (%s)" % (key, tag, lf.describe(st)))
+                            elif d is None and lf.loops and len({x for g in glist for x in (st[g][0][4:-1].split(";") if st[g][0].startswith("sum(") else [st[g][0]]) if x != "0"}) > 1:
+                                # (one and the same bound expression, used a different number of times per list, is a definite mismatch)
+                                ck.incomplete("E7.parallel-lists", "%s [%s]: the lists are filled by counted loops whose bounds this rule cannot relate (%s)" % (key, tag, lf.describe(st)))
                             elif d is None:
                                 bad.append("[%s] at the exit through line %s the lists are not sized from one common length: %s" % (tag, compress(fn.cfg.block_lines([b])[-1:]), lf.describe(st)))
                             else:
@@ -3184,15 +3721,30 @@ def base_key(k):
     return k[:j] if j >= 0 else k
 
 
-def matrix_derived_members(fn):
+def matrix_derived_members(fn, methods=None, depth=0):
     """taint analysis of one function: fields of *this whose new value is computed from _system_matrix
-    (directly or through locals / other derived fields) -> {field key: [writing nodes]}"""
+    (directly or through locals / other derived fields) -> {field key: [writing nodes]}.
+    methods ({name: Function}): own-class helpers are followed (depth <= 2): a helper that reads the matrix returns a
+    matrix-derived value, and the fields it derives count as written by the call statement"""
     lo = Locals(fn)
     taint = {"this._system_matrix"}
     writes = {}
+    tainted_calls = set()
+    for n in fn.nodes() if (methods and depth < 2) else ():
+        if n.get("k") == "MCall" and (n.get("obj") is None or n["obj"].get("k") == "This") and cname(n) in methods and methods[cname(n)] is not fn:
+            h = methods[cname(n)]
+            hd, _hlo = matrix_derived_members(h, methods, depth + 1)
+            reads = bool(hd) or any(x.get("k") == "Member" and x.get("n") == "_system_matrix" for x in walk(h.body))
+            if reads:
+                tainted_calls.add(n["i"])
+                for fld in hd:
+                    taint.add(fld)
+                    writes.setdefault(fld, []).append(n)
 
     def tainted(e):
         for x in walk(e):
+            if x.get("i") in tainted_calls and x.get("i") is not None:
+                return True
             if x.get("k") in ("Ref", "Member"):
                 if base_key(objkey(lo, x)) in taint:
                     return True
@@ -3249,7 +3801,12 @@ def rule_numeric_refresh(ck, solvers):
     """members computed from the matrix values in init_numeric are recomputed on every init_numeric"""
     for sc in sorted(SOLVERS):
         for fn in solvers.get(sc, {}).get("init_numeric", [])[:1]:
-            derived, lo = matrix_derived_members(fn)
+            methods = {}
+            for mname, mfl in solvers.get(sc, {}).items():
+                cand = [f for f in mfl if f.cls == fn.cls and f.cfg is not None and not f.d.get("ctor")]
+                if cand and mname not in ("init_numeric", "done_numeric", "init_symbolic", "done_symbolic", "apply", "correct", "_apply_intern"):
+                    methods[mname] = cand[0]
+            derived, lo = matrix_derived_members(fn, methods)
             par = parent_map(fn)
             gd = Guards(fn)
             done = [f for f in solvers.get(sc, {}).get("done_numeric", []) if f.cls == fn.cls]
@@ -3350,6 +3907,12 @@ class BalanceFlow:
             obj = n.get("obj")
             ko = objkey(lo, obj) if obj is not None and obj.get("k") != "This" else None
             roles = dict(zip(n.get("pn", []), n.get("a", [])))
+            if ko is not None and ko.startswith("?") and not n.get("cconst") and "Vector" in strip_targs(fn.ntype(obj) or "") and "std::vector" not in (fn.ntype(obj) or ""):
+                # a vector selected by an expression this rule does not resolve (?:, call result) is modified: it may be the iterate / the defect
+                st = None
+                if record:
+                    self.unknown_ops.append("line %s: %s" % (n.get("l"), render(n)[:50]))
+                continue
             if ko in (self.sol, self.dfk):
                 if nm == "axpy":
                     c, sg = signed_coef(lo, roles.get("alpha"))
@@ -3558,8 +4121,13 @@ def rule_validity_flags(ck, solvers):
                         inval.append(n)
                 if not inval:
                     continue
+                # a private helper that only releases the object: the reset may be left to its callers (all of them, on every path)
+                callers = [(n2, fl2[0]) for n2, fl2 in sorted(members.items()) if fl2[0] is not fn and fl2[0].cfg is not None
+                           and any(c.get("k") == "MCall" and (c.get("obj") is None or c["obj"].get("k") == "This") and cname(c) == name for c in fl2[0].calls())]
                 if resets(fn) or (name == "init_symbolic" and done_resets):
                     notes.append("%s() resets it" % name)
+                elif callers and not fn.d.get("virtual") and all(resets(cf) or (cn == "init_symbolic" and done_resets) for cn, cf in callers):
+                    notes.append("%s() is only called by %s, which reset it" % (name, ", ".join(cn for cn, cf in callers)))
                 else:
                     bad.append("%s() releases/reallocates %s (line %s: %s) but leaves %s == true: after %s() the guarded set-up in %s() is skipped and %s is used with unspecified contents" % (
                         name, ", ".join(sorted(o[5:] for o in objs)), inval[0].get("l"), render(inval[0])[:40], flag, name, sfn.name, ", ".join(sorted(o[5:] for o in objs))))
@@ -3694,10 +4262,10 @@ def rule_dimensions(ck, solvers, facts=None):
                         continue
                     culprits = []
                     # which single statement, if ignored, makes the system consistent again?
-                    for n in df.evaluated:
+                    for n, owner in zip(df.evaluated, df.evaluated_in):
                         if n.get("k") == "Decl" and not any(is_call(x) or x.get("k") == "Bin" for x in walk(n)):
                             continue
-                        d2 = c07_dim.DimFlow(fn, lo, helpers, assume=asm, skip=(n["i"],)).run()
+                        d2 = c07_dim.DimFlow(fn, lo, helpers, assume=asm, skip=((owner, n["i"]),)).run()
                         if not d2.stmt_conflicts:
                             culprits.append("line %s `%s`" % (n.get("l"), render(n)[:60]))
                     for stn, what, h in df.stmt_conflicts[:1]:
@@ -3717,7 +4285,8 @@ RULES = [
     ("E8.numeric-refresh", 7,
      "taint analysis of every init_numeric override (PCGNR, PCGNRILU, Chebyshev): each member whose value is computed from _system_matrix (directly or through "
      "locals / other derived members) is recomputed on every path, or only skipped under tests of configuration / loop control; if the recomputation is "
-     "guarded by the derived member's own state (e.g. `if(X.empty())`), done_numeric() must release X on every path. Broken => history: init(); solve; "
+     "guarded by the derived member's own state (e.g. `if(X.empty())`), done_numeric() must release X on every path; own helpers that read the matrix are "
+     "followed (their result and the members they derive are matrix-derived). Broken => history: init(); solve; "
      "done_numeric(); matrix values updated in place; init_numeric(); solve — the solver iterates with data of the old matrix."),
     ("E8.solution-defect-balance", 14,
      "in _apply_intern of 14 solvers: dataflow of the signed step lengths applied to the iterate (x.axpy(w, c)) and to the vector measured by the convergence "
@@ -3740,7 +4309,12 @@ RULES = [
     ("E6.dimension", 13,
      "units-of-measure inference on _apply_intern of 12 solvers (BiCGStab once per preconditioning variant): every vector/scalar gets a dimension over "
      "X (solution) and B (rhs) with [A] = B/X, [M^-1] = X/B, typing of axpy/scale/copy/dot/norm2/apply/_apply_precond by callee parameter names, one unknown "
-     "per block entry and key, CFG edges as equations. The system must be consistent. Broken => wrong operand in an update (r.axpy(p,-alpha)), quotient of "
+     "per block entry and key, CFG edges as equations. The system must be consistent. Configuration-sensitive: tests of fields the solver never writes "
+     "while iterating against enumerators/literals (BiCGStab _precon_variant) are atoms; the analysis runs once per assignment of the atoms and decides every use of "
+     "such a test from the assignment - if/?:/switch/&&/|| terminators, an operand selected by ?:, const bool locals holding the test, re-assigned bool flags "
+     "(constant propagation), bool parameters of inlined helpers, parameterless const predicates - so two configurations are never merged; a test that may "
+     "depend on the configuration but cannot be decided turns a conflict into exit 2. Own helpers are analysed inline with the caller's state. "
+     "Broken => wrong operand in an update (r.axpy(p,-alpha)), quotient of "
      "the wrong inner products: the recurrence is not the documented Krylov method although it may still converge on the test matrix."),
     ("E7.status-origin", 48,
      "per _apply_intern, three obligations (progress / undefined / literal): abstract interpretation of the Status locals over the CFG "
@@ -3754,7 +4328,8 @@ RULES = [
      "of the status variable before it was returned. Broken => input class: initial defect already zero / below tol_abs_low / non-finite: the "
      "solver keeps iterating (dividing by zero inner products) and reports something else."),
     ("E7.precond-tested", 35,
-     "every bool result of _apply_precond/_apply_precond_l/_r is a branch condition whose failure edge leads only to `return Status::aborted`. "
+     "every bool result of _apply_precond/_apply_precond_l/_r is a branch condition whose failure edge leads only to `return Status::aborted`; a private bool "
+     "wrapper of the preconditioner call must return false on its failure (or return the result itself) and its call sites are held to the same rule. "
      "Broken => a failing preconditioner (inner solver diverged) leaves an undefined correction that is iterated on; the run may still say success."),
     ("E7.loop-defect-update", 16,
      "every trip round the loop controlled by the status variable passes an assignment status = _set_new_defect/_update_defect (inner counted loops "
@@ -3768,7 +4343,8 @@ RULES = [
      "that _set_initial_defect measured (the solver's defect vector). Broken => success is declared on the norm of a search direction / preconditioned "
      "residual while ||b-Ax|| misses the tolerance."),
     ("E7.status-forwarded", 32,
-     "apply()/correct() return the status computed by _apply_intern (directly or through the single assignment of _status that dominates the return)."),
+     "apply()/correct() return the status computed by _apply_intern (directly or through the single assignment of _status that dominates the return), "
+     "also when the iteration and the common tail sit in one shared private helper (followed one level) or apply() formats and forwards to correct()."),
     ("E7.apply-ignores-start", 16,
      "apply(vec_cor, vec_def): vec_cor.format(0) dominates the iteration and every other use of vec_cor; the vector measured by _set_initial_defect is "
      "the copy of vec_def made by apply(). Broken => input class: caller passes an uninitialised / non-zero vec_cor (documented as allowed): the "
@@ -3791,14 +4367,19 @@ RULES = [
      "check_stag<-true), roles by callee parameter names, evaluated after the state update."),
     ("E13.decision-table", 4,
      "truth tables of is_converged, is_diverged, _analyse_defect, _set_initial_defect (all CFG paths, canonical `le` atoms, field effects) equal the "
-     "documented criteria transcribed in this file from the anchored doc comments, for every consistent assignment of the atoms. Broken => e.g. "
-     "defect == tol_abs (<= vs <), tol_abs/tol_abs_low swapped, max_iter tested before convergence."),
+     "documented criteria transcribed in this file from the anchored doc comments, for every consistent assignment of the atoms. Statically bound own-class "
+     "helpers (bool / Status / void, depth <= 3) are followed: their paths are spliced in with parameters bound to the caller's values, so a criterion or the "
+     "stagnation bookkeeping extracted into a helper is decided exactly as before; switch and ?: are decision-table forms like if. Broken => e.g. "
+     "defect == tol_abs (<= vs <), tol_abs/tol_abs_low swapped, max_iter tested before convergence, a helper called with swapped defects."),
     ("E13.monotone", 2,
      "is_converged is monotone increasing, is_diverged monotone decreasing under a decrease of def_cur (def_cur occurs only as the small side of <=)."),
     ("E13.inner-criteria", 4,
-     "the inner (pseudo-residual) stopping tests replicated in GMRES/FGMRES::_apply_intern are the is_diverged criterion (unscaled) and the is_converged "
-     "criterion with every tolerance multiplied by _inner_res_scale (class doc: 0<delta<1 = tighter inner tolerance, delta=0 = only the exact solution stops), "
-     "the latter under the min-iteration guard. Broken => copy/paste drift of the replicated formula (tol_abs_low/tol_abs swapped, unscaled term)."),
+     "the inner (pseudo-residual) stopping tests replicated in GMRES/FGMRES::_apply_intern: decision table of the CFG region from the first test of a tolerance "
+     "inside the inner Krylov loop to the loop head (iteration continues) or a loop exit (iteration stops), all paths, own helpers followed, products flattened: "
+     "stops <=> is_diverged(D) (unscaled) or (_num_iter >= _min_iter and (is_converged(D) with every tolerance multiplied by _inner_res_scale or _num_iter >= _max_iter)) "
+     "(class doc: 0<delta<1 = tighter inner tolerance, delta=0 = only the exact solution stops). Two obligations per solver (diverged part / converged part of "
+     "the table). Independent of nesting, negation, De Morgan, named bools. Broken => copy/paste drift of the replicated formula (tol_abs_low/tol_abs swapped, "
+     "unscaled term, < for <=, guard not negated)."),
     ("E13.guard-field", 2, "Status::max_iter is returned only under a test of _max_iter, Status::stagnated only under a test of _min_stag_iter/_stag_rate."),
     ("E13.status-success", 7, "status_success maps exactly {success, max_iter, stagnated} to true (one obligation per enumerator)."),
     ("E1.setter-field", 24, "each set_X(p) (and skip_defect_calc) stores its parameter into the field _X on every path (exceptions tabled with their doc)."),
@@ -3841,7 +4422,7 @@ def run(tier):
     rule_rhs_const(ck, facts, solvers)
     rule_config(ck, facts)
     rule_dimensions(ck, solvers, facts)
-    rule_inner_criteria(ck, solvers)
+    rule_inner_criteria(ck, solvers, facts)
     rule_parallel_lists(ck, solvers)
     rule_numeric_refresh(ck, solvers)
     rule_solution_defect_balance(ck, solvers, cv)
